@@ -258,17 +258,13 @@ func UtxoValidateNativeScripts(
 		keyHashes[keyHash] = true
 	}
 
-	// Get transaction validity interval
-	validityStart := tx.ValidityIntervalStart()
-	validityEnd := tx.TTL()
-	if validityEnd == 0 {
-		validityEnd = ^uint64(0) // Max uint64 if not set
-	}
+	// Get transaction validity interval (nil = bound not present)
+	validityStart, validityEnd := common.TxValidityInterval(tx)
 
 	// Evaluate each native script
 	for _, nscript := range nativeScripts {
 		scriptHash := nscript.Hash()
-		if !nscript.Evaluate(slot, validityStart, validityEnd, keyHashes) {
+		if !nscript.EvaluateWithValidity(validityStart, validityEnd, keyHashes) {
 			return NativeScriptFailedError{ScriptHash: scriptHash}
 		}
 	}
